@@ -312,6 +312,7 @@ Section LibProofs.
   Notation parse_pos := (parse_pos py_int py_float).
   Notation parse_kw := (parse_kw py_int py_hex py_float).
   Notation parse := (parse py_int py_hex py_float).
+  Notation parse_toks := (parse_toks py_int py_hex py_float).
   Notation validate := (validate host_ok localhost_ip).
   Notation build := (build host_ok localhost_ip).
   Notation create := (create py_int py_hex py_float host_ok localhost_ip).
@@ -409,16 +410,16 @@ Section LibProofs.
     last_kw p (filter is_kw parts) = None /\ pos_tok p (t_pos T) (filter is_pos parts) = None.
 
   (* what an accepted parse looks like *)
-  Lemma parse_Ok_inv : forall T d s ps, parse T d s = Ok ps ->
+  Lemma parse_Ok_inv_toks : forall T d toks ps, parse_toks T d toks = Ok ps ->
     exists itok parts dp dk,
-      tokenise s = itok :: parts /\ parts <> [] /\ lower itok = t_iface T /\
+      toks = itok :: parts /\ parts <> [] /\ lower itok = t_iface T /\
       parse_pos (t_pos T) (filter is_pos parts) = Some dp /\
       parse_kw (t_kw T) (filter is_kw parts) = Some dk /\
       ps = canon (names T) (rev dk ++ rev dp ++ filter_defaults T d) /\
       forallb (fun n => has n (rev dk ++ rev dp ++ filter_defaults T d)) (required T) = true.
   Proof.
-    intros T d s ps H. unfold parse in H.
-    destruct (tokenise s) as [|itok parts] eqn:Tk; [simpl in H; discriminate|].
+    intros T d toks ps H. unfold parse_toks in H.
+    destruct toks as [|itok parts]; [simpl in H; discriminate|].
     destruct parts as [|p1 parts]; [simpl in H; discriminate|].
     cbn [length Nat.ltb Nat.leb hd tl] in H.
     destruct (str_eqb (lower itok) (t_iface T)) eqn:I; [|simpl in H; discriminate].
@@ -455,9 +456,9 @@ Section LibProofs.
   Qed.
 
   (* FAITHFULNESS of the parse stage *)
-  Lemma faithful_parse : forall T d s ps, table_wf T = true -> parse T d s = Ok ps ->
+  Lemma faithful_parse_toks : forall T d toks ps, table_wf T = true -> parse_toks T d toks = Ok ps ->
     exists itok parts,
-      tokenise s = itok :: parts /\ lower itok = t_iface T /\
+      toks = itok :: parts /\ lower itok = t_iface T /\
       (forall p v, last_kw p (filter is_kw parts) = Some v ->
          exists prm x, find_param p (t_kw T) = Some prm /\ type_kw (pty prm) v = Some x /\ get p ps = Some x) /\
       (forall k prm tok, nth_error (t_pos T) k = Some prm -> nth_error (filter is_pos parts) k = Some tok ->
@@ -465,8 +466,8 @@ Section LibProofs.
       (forall p, given_nothing T parts p -> get p ps = if mem p (names T) then get p d else None) /\
       (forall p, ~ In p (names T) -> get p ps = None).
   Proof.
-    intros T d s ps WF H.
-    destruct (parse_Ok_inv T d s ps H) as [itok [parts [dp [dk [Tk [Hne [I [P [K [Eps R]]]]]]]]]].
+    intros T d toks ps WF H.
+    destruct (parse_Ok_inv_toks T d toks ps H) as [itok [parts [dp [dk [Tk [Hne [I [P [K [Eps R]]]]]]]]]].
     pose proof (table_wf_NoDup T WF) as ND.
     exists itok, parts. split; [exact Tk|]. split; [exact I|].
     assert (Gps : forall p, get p ps = if mem p (names T) then
@@ -503,13 +504,13 @@ Section LibProofs.
   Qed.
 
   (* REQUIRED / UNKNOWN / UNTYPABLE / REPEATED '=' *)
-  Lemma parse_missing_required : forall T d s p,
+  Lemma parse_missing_required_toks : forall T d toks p,
     table_wf T = true -> In p (required T) ->
-    (forall parts itok, tokenise s = itok :: parts -> given_nothing T parts p) ->
-    get p d = None -> parse T d s = Err.
+    (forall parts itok, toks = itok :: parts -> given_nothing T parts p) ->
+    get p d = None -> parse_toks T d toks = Err.
   Proof.
-    intros T d s p WF Hreq Hnone Hd. destruct (parse T d s) as [ps|] eqn:H; [|reflexivity]. exfalso.
-    destruct (parse_Ok_inv T d s ps H) as [itok [parts [dp [dk [Tk [Hne [I [P [K [Eps R]]]]]]]]]].
+    intros T d toks p WF Hreq Hnone Hd. destruct (parse_toks T d toks) as [ps|] eqn:H; [|reflexivity]. exfalso.
+    destruct (parse_Ok_inv_toks T d toks ps H) as [itok [parts [dp [dk [Tk [Hne [I [P [K [Eps R]]]]]]]]]].
     destruct (Hnone parts itok Tk) as [L PT].
     rewrite forallb_forall in R. specialize (R p Hreq). unfold has in R.
     rewrite !get_app in R.
@@ -520,16 +521,16 @@ Section LibProofs.
     destruct (mem p (names T)); discriminate.
   Qed.
 
-  Lemma parse_bad_kw_part : forall T d s itok parts part,
-    tokenise s = itok :: parts -> In part parts -> is_kw part = true ->
+  Lemma parse_bad_kw_part_toks : forall T d toks itok parts part,
+    toks = itok :: parts -> In part parts -> is_kw part = true ->
     (split_kw part = None                                        (* a second '=' *)
      \/ find_param (key part) (t_kw T) = None                    (* unknown keyword *)
      \/ (exists prm, find_param (key part) (t_kw T) = Some prm /\ type_kw (pty prm) (val part) = None)) ->
-    parse T d s = Err.
+    parse_toks T d toks = Err.
   Proof.
-    intros T d s itok parts part Tk Hin Hkw Hbad.
-    destruct (parse T d s) as [ps|] eqn:H; [|reflexivity]. exfalso.
-    destruct (parse_Ok_inv T d s ps H) as [itok' [parts' [dp [dk [Tk' [Hne [I [P [K [Eps R]]]]]]]]]].
+    intros T d toks itok parts part Tk Hin Hkw Hbad.
+    destruct (parse_toks T d toks) as [ps|] eqn:H; [|reflexivity]. exfalso.
+    destruct (parse_Ok_inv_toks T d toks ps H) as [itok' [parts' [dp [dk [Tk' [Hne [I [P [K [Eps R]]]]]]]]]].
     rewrite Tk in Tk'. inversion Tk'; subst itok' parts'.
     pose proof (parse_kw_all _ _ _ K) as A. rewrite Forall_forall in A.
     assert (Hf : In part (filter is_kw parts)) by (apply filter_In; auto).
@@ -550,29 +551,77 @@ Section LibProofs.
     - eapply IH; eauto.
   Qed.
 
-  Lemma parse_bad_positional : forall T d s itok parts k prm tok,
-    tokenise s = itok :: parts ->
+  Lemma parse_bad_positional_toks : forall T d toks itok parts k prm tok,
+    toks = itok :: parts ->
     nth_error (t_pos T) k = Some prm -> nth_error (filter is_pos parts) k = Some tok ->
-    type_pos (pty prm) tok = None -> parse T d s = Err.
+    type_pos (pty prm) tok = None -> parse_toks T d toks = Err.
   Proof.
-    intros T d s itok parts k prm tok Tk Hp Ht Hbad.
-    destruct (parse T d s) as [ps|] eqn:H; [|reflexivity]. exfalso.
-    destruct (parse_Ok_inv T d s ps H) as [itok' [parts' [dp [dk [Tk' [Hne [I [P [K [Eps R]]]]]]]]]].
+    intros T d toks itok parts k prm tok Tk Hp Ht Hbad.
+    destruct (parse_toks T d toks) as [ps|] eqn:H; [|reflexivity]. exfalso.
+    destruct (parse_Ok_inv_toks T d toks ps H) as [itok' [parts' [dp [dk [Tk' [Hne [I [P [K [Eps R]]]]]]]]]].
     rewrite Tk in Tk'. inversion Tk'; subst itok' parts'.
     destruct (parse_pos_all _ _ _ P k prm tok Hp Ht) as [x Hx]. congruence.
   Qed.
 
-  Lemma parse_wrong_interface : forall T d s,
-    lower (hd [] (tokenise s)) <> t_iface T -> parse T d s = Err.
+  Lemma parse_wrong_interface_toks : forall T d toks,
+    lower (hd [] (toks)) <> t_iface T -> parse_toks T d toks = Err.
   Proof.
-    intros T d s Hne. unfold parse. destruct (length (tokenise s) <? 2)%nat; [reflexivity|].
-    apply str_eqb_neq in Hne. rewrite Hne. reflexivity.
+    intros T d toks Hne. unfold parse_toks. apply str_eqb_neq in Hne. rewrite Hne.
+    destruct (_ <? 2)%nat; reflexivity.
   Qed.
 
-  Lemma parse_too_short : forall T d s, (length (tokenise s) < 2)%nat -> parse T d s = Err.
+  Lemma parse_too_short_toks : forall T d toks, (length (toks) < 2)%nat -> parse_toks T d toks = Err.
   Proof.
-    intros T d s H. unfold parse. apply Nat.ltb_lt in H. rewrite H. reflexivity.
+    intros T d toks H. unfold parse_toks. apply Nat.ltb_lt in H. rewrite H. reflexivity.
   Qed.
+
+  (* the same for the descriptor string: parse T d s = parse_toks T d (tokenise s) *)
+  Lemma parse_Ok_inv : forall T d s ps, parse T d s = Ok ps ->
+    exists itok parts dp dk,
+      tokenise s = itok :: parts /\ parts <> [] /\ lower itok = t_iface T /\
+      parse_pos (t_pos T) (filter is_pos parts) = Some dp /\
+      parse_kw (t_kw T) (filter is_kw parts) = Some dk /\
+      ps = canon (names T) (rev dk ++ rev dp ++ filter_defaults T d) /\
+      forallb (fun n => has n (rev dk ++ rev dp ++ filter_defaults T d)) (required T) = true.
+  Proof. intros T d s. exact (parse_Ok_inv_toks T d (tokenise s)). Qed.
+
+  Lemma faithful_parse : forall T d s ps, table_wf T = true -> parse T d s = Ok ps ->
+    exists itok parts,
+      tokenise s = itok :: parts /\ lower itok = t_iface T /\
+      (forall p v, last_kw p (filter is_kw parts) = Some v ->
+         exists prm x, find_param p (t_kw T) = Some prm /\ type_kw (pty prm) v = Some x /\ get p ps = Some x) /\
+      (forall k prm tok, nth_error (t_pos T) k = Some prm -> nth_error (filter is_pos parts) k = Some tok ->
+         exists x, type_pos (pty prm) tok = Some x /\ get (pname prm) ps = Some x) /\
+      (forall p, given_nothing T parts p -> get p ps = if mem p (names T) then get p d else None) /\
+      (forall p, ~ In p (names T) -> get p ps = None).
+  Proof. intros T d s. exact (faithful_parse_toks T d (tokenise s)). Qed.
+
+  Lemma parse_missing_required : forall T d s p,
+    table_wf T = true -> In p (required T) ->
+    (forall parts itok, tokenise s = itok :: parts -> given_nothing T parts p) ->
+    get p d = None -> parse T d s = Err.
+  Proof. intros T d s. exact (parse_missing_required_toks T d (tokenise s)). Qed.
+
+  Lemma parse_bad_kw_part : forall T d s itok parts part,
+    tokenise s = itok :: parts -> In part parts -> is_kw part = true ->
+    (split_kw part = None
+     \/ find_param (key part) (t_kw T) = None
+     \/ (exists prm, find_param (key part) (t_kw T) = Some prm /\ type_kw (pty prm) (val part) = None)) ->
+    parse T d s = Err.
+  Proof. intros T d s. exact (parse_bad_kw_part_toks T d (tokenise s)). Qed.
+
+  Lemma parse_bad_positional : forall T d s itok parts k prm tok,
+    tokenise s = itok :: parts ->
+    nth_error (t_pos T) k = Some prm -> nth_error (filter is_pos parts) k = Some tok ->
+    type_pos (pty prm) tok = None -> parse T d s = Err.
+  Proof. intros T d s. exact (parse_bad_positional_toks T d (tokenise s)). Qed.
+
+  Lemma parse_wrong_interface : forall T d s,
+    lower (hd [] (tokenise s)) <> t_iface T -> parse T d s = Err.
+  Proof. intros T d s. exact (parse_wrong_interface_toks T d (tokenise s)). Qed.
+
+  Lemma parse_too_short : forall T d s, (length (tokenise s) < 2)%nat -> parse T d s = Err.
+  Proof. intros T d s. exact (parse_too_short_toks T d (tokenise s)). Qed.
 End LibProofs.
 
 (* ================================================================== Part 3: create / build *)
@@ -624,9 +673,11 @@ Section LibProofs2.
   Notation type_pos := (type_pos py_int py_float).
   Notation type_kw := (type_kw py_int py_hex py_float).
   Notation parse := (parse py_int py_hex py_float).
+  Notation parse_toks := (parse_toks py_int py_hex py_float).
   Notation validate := (validate host_ok localhost_ip).
   Notation build := (build host_ok localhost_ip).
   Notation create := (create py_int py_hex py_float host_ok localhost_ip).
+  Notation create_toks := (create_toks py_int py_hex py_float host_ok localhost_ip).
   Notation norm_host := (norm_host localhost_ip).
 
   (* the only rewriting a constructor does: "localhost" is resolved by the socket transports *)
